@@ -257,6 +257,9 @@ def call_method(eng, it, recv, m, args, kwargs, node):
                 items.reverse()
             return it.make_list(items, INT, KIND_BYTES)
         raise Unsupported('int.' + m)
+    if type(recv).__name__ == 'VNp':
+        from .numpy_model import np_method
+        return np_method(eng, it, recv, m, args, kwargs)
     if isinstance(recv, (VList, VSeq)):
         return list_method(eng, it, recv, m, args, kwargs)
     if isinstance(recv, VRef):
